@@ -306,9 +306,11 @@ def parse_contracts(path):
                 mm = re.match(r"@fn\s+(\w+)\s+@props\s+([\w,*]+)\s*$", line)
                 if not mm:
                     raise ValueError("bad @fn line: " + line)
-                cur = {"props": set(mm.group(2).split(",")), "fn": [], "loops": {}}
+                cur = {"props": set(mm.group(2).split(",")), "fn": [], "loops": {}, "ghost": []}
                 res.setdefault(mm.group(1), []).append(cur)
                 tgt = cur["fn"]
+            elif line.startswith("@ghost"):
+                cur["ghost"].append(line[len("@ghost"):].strip())
             elif line.startswith("@loop"):
                 n = int(line.split()[1])
                 tgt = cur["loops"].setdefault(n, [])
@@ -326,10 +328,21 @@ def parse_contracts(path):
 
 def contracts_for(parsed, fn, prop):
     """merge all sections of fn that apply to prop ('*' applies to every property)."""
-    fnc, loops = [], {}
+    fnc, loops, ghost = [], {}, []
     for sec in parsed.get(fn, []):
         if prop in sec["props"] or "*" in sec["props"]:
             fnc.extend(sec["fn"])
+            for g in sec["ghost"]:
+                if g not in ghost:
+                    ghost.append(g)
             for n, cl in sec["loops"].items():
                 loops.setdefault(n, []).extend(cl)
-    return fnc, loops
+    return Contract(fnc, loops, ghost)
+
+
+class Contract:
+    def __init__(self, fn, loops, ghost):
+        self.fn, self.loops, self.ghost = fn, loops, ghost
+
+    def __iter__(self):  # (fn_clauses, loop_clauses)
+        return iter((self.fn, self.loops))
